@@ -335,8 +335,12 @@ def do_make(ctx, U, mode, v, t, ts, now, make_cases, parse_cases, kind, oracle=T
     payload = v + "::" + t
     r, problem = mode.dissect(U, c, payload, ts_eff)
     if problem:
-        ctx.mismatch("cookie structure: " + problem, rec)
-        return None
+        # not what the model says a cookie looks like; it still IS a cookie this handler issued: keep it for
+        # the oracle and the mutation stream
+        if len(ctx.mismatches) < 40:
+            ctx.mismatch("cookie structure: " + problem, rec)
+        mode.genuine.append((v, t, ts_eff, c))
+        return c
     _, used = U.wire(c)
     make_cases.append(("(%s, %s, %s, %s, %s, %s, tab, %s)" % (mode.coq(), coq_str(v), coq_str(t),
                         coq_str(str(ts) if ts else ""), coq_z(now), coq_str(r), coq_str(c)), used, rec))
@@ -493,6 +497,100 @@ def do_parse(ctx, U, mode, s, kind, parse_cases, seen, base=None):
     add_parse_case(U, mode, s, out, parse_cases, rec)
 
 
+
+# ---------------------------------------------------------------- idpyoidc.client.cookie (relying-party helper)
+CLIENT_KEY = 11
+CLIENT_SEED = b"rp-seed-0123456789abcdef"
+CLIENT_ENC = b"rp-enc-key-0123456789abc"
+
+
+def client_stream(ctx, U, rng):
+    """oracle (and, for the signed-only variant, model) for client.cookie.make_cookie / parse_cookie.
+    The unframed MAC is a recorded finding: the fixed witness below raises client-cookie-boundary-shift on
+    every run; anything else a client cookie does wrong has its own key."""
+    from idpyoidc.client.cookie import make_cookie, parse_cookie
+    cases = []
+    genuine = {None: [], CLIENT_ENC: []}     # enc_key -> [(load, ts, value string)]
+
+    def make(load, ts, enc):
+        hdr = make_cookie("n", load, CLIENT_SEED, timestamp=ts, enc_key=enc)
+        val = hdr[1].split(";")[0]
+        assert val.startswith("n=")
+        return val[2:]
+
+    def parse(val, enc):
+        try:
+            r = parse_cookie("n", CLIENT_SEED, "n=" + val, enc_key=enc)
+        except Exception as e:
+            return ("rej", type(e).__name__)
+        if r is None:
+            return ("rej", "dropped")
+        return ("ok", r[0], r[1])
+
+    def issue(load, ts, enc, kind):
+        val = make(load, ts, enc)
+        rec = {"kind": kind, "client_cookie": True, "encrypted": enc is not None, "load": load, "timestamp": ts, "cookie": val}
+        if enc is None:
+            sig = hmac.new(CLIENT_SEED, (load + ts).encode("utf-8"), hashlib.sha1).hexdigest()
+            if val != load + BAR + ts + BAR + sig:
+                ctx.mismatch("client cookie structure: expected %r" % (load + BAR + ts + BAR + sig), rec)
+            U.add(sig, t_mac(CLIENT_KEY, t_atom(load + ts)))
+        genuine[enc].append((load, ts, val))
+        out = parse(val, enc)
+        rec["parsed"] = list(out)
+        ctx.case_seen(rec, True)
+        ctx.count("client:make")
+        if out != ("ok", load, ts):
+            key = "client-cookie-rt-bar" if (enc is None and BAR in load) else "client-cookie-rt-other"
+            ctx.violation(key, "client.cookie: make_cookie(load=%r, timestamp=%r, enc_key=%s) -> %r parses back to %r"
+                          % (load, ts, "set" if enc else "None", val, out), rec)
+        if enc is None:
+            add_client_case(val, out, rec)
+        return val
+
+    def add_client_case(val, out, rec):
+        if U.lenient(val):
+            return
+        w, used = U.wire(val)
+        obs = "(Some (%s, %s))" % (coq_str(out[1]), coq_str(out[2])) if out[0] == "ok" else "(@None (pystr * pystr))"
+        cases.append(("(%d%%nat, tab, %s, %s)" % (CLIENT_KEY, w, obs), used, rec))
+
+    def judge(val, enc, kind, base):
+        out = parse(val, enc)
+        rec = {"kind": kind, "client_cookie": True, "encrypted": enc is not None, "cookie": val, "parsed": list(out), "mutated_from": base}
+        ctx.case_seen(rec, True)
+        ctx.count("client:parse:" + out[0])
+        if out[0] == "ok" and not any((out[1], out[2]) == (l, t) for l, t, _ in genuine[enc]):
+            shifted = any(out[1] + out[2] == l + t for l, t, _ in genuine[enc])
+            ctx.violation("client-cookie-boundary-shift" if shifted else "client-cookie-tamper-accepted",
+                          "client.cookie (%s): %r (%s of %r) is accepted as (load=%r, timestamp=%r), which the relying "
+                          "party never issued" % ("AES-GCM" if enc else "signed-only", val, kind, base, out[1], out[2]), rec)
+        if enc is None:
+            add_client_case(val, out, rec)
+
+    # the recorded finding, deterministically
+    w = issue("value::sso", "1700000000", None, "client-fixed-witness")
+    judge(w.replace("value::sso|1700000000", "value::sso1|700000000"), None, "ts-head-to-load-1", w)
+    safe = "abcXYZ019:._-"
+    for enc in (None, CLIENT_ENC):
+        issue("other", "1700000001", enc, "client-fixed")
+        for _ in range(6 if ctx.quick else 60):
+            load = "".join(rng.choice(safe) for _ in range(rng.randint(1, 10)))
+            issue(load, str(rng.randint(10 ** 9, 2 * 10 ** 9)), enc, "client-random")
+        gl = genuine[enc]
+        seen = set()
+        for i, (load, ts, val) in enumerate(gl[:5 if ctx.quick else 30]):
+            other = gl[(i + 1) % len(gl)][2]
+            for kind, s2 in mutations(rng, val, other, exhaustive=False):
+                if s2 != val and s2 not in seen and not any(s2 == g[2] for g in gl):
+                    seen.add(s2)
+                    judge(s2, enc, kind, val)
+    # a separator inside the load (signed-only: four parts are taken for the AES-GCM variant)
+    issue("a|b", "17", None, "client-bar-in-load")
+    issue("a|b", "17", CLIENT_ENC, "client-bar-in-load")
+    return cases
+
+
 def rsplit_cases(rng, n):
     out = []
     for _ in range(n):
@@ -610,6 +708,9 @@ def run(ctx):
     nbase = 6 if ctx.quick else 40
     for mode in modes:
         gen = [g for g in mode.genuine if g[3]]
+        if len(gen) < 2:
+            ctx.broken.append("mode %s: the handler issued fewer than two cookies" % mode.name)
+            continue
         # base cookies: prefer ones with separators inside the payload and ordinary ones
         bases = gen[:4] + rng.sample(gen[4:], min(nbase, max(0, len(gen) - 4)))
         for bi, (v, t, ts, c) in enumerate(bases):
@@ -637,8 +738,13 @@ def run(ctx):
                         do_parse(ctx, U, mode, BAR.join(q), "genuine-part%d<-attacker%d" % (j, k), parse_cases, seen, base=gen[0][3])
         for s in ["", BAR, "||", "|||", "||||", "17", "17|x", "17|a::b|", "17|a::b|AAAA", "a|b|c|d", "a|b|c|d|e"]:
             do_parse(ctx, U, mode, s, "malformed", parse_cases, seen)
+    ccases = client_stream(ctx, U, rng)
     t1 = time.time()
     # ---- model
+    cl = eval_shards(ctx, "client", "client_case", ccases, ["chk_client"], U)
+    for name, j, case in cl["chk_client"][:10]:
+        ctx.mismatch("client.cookie.parse_cookie: model and implementation disagree (%s[%d])" % (name, j), case[2],
+                     model=diag(ctx, U, "client_model", case, name) if len(ctx.mismatches) < 3 else None)
     mk = eval_shards(ctx, "make", "make_case", make_cases, ["chk_make"], U)
     for name, j, case in mk["chk_make"][:20]:
         ctx.mismatch("make_cookie_content: model text differs from the real cookie (%s[%d])" % (name, j), case[2],
